@@ -328,8 +328,9 @@ theorem C14_timepar_duration_partial (dt : Rat) (hdt : dt = 1) (a b : Nat) (D : 
     ageRowL (stepsCountdown .asis dt) als (a, b, timeparValue D dt) =
       if als.length = 0 ∨ (als.length : Int) < (D / dt).ceil then some (a, b, timeparValue D dt - als.length * dt) else none := by
   subst hdt
+  have e1 : ∀ x : Rat, x / 1 = x := by intro x; grind
   have := C14_timed_edges_own_dt 1 (by decide) a b (timeparValue D 1) als h
-  simpa [stepsCountdown, timeparValue] using this
+  simpa [stepsCountdown, timeparValue, e1] using this
 
 /-- **Time-parameter durations (counterexample).** `dur = ss.years(2)` with `dt = 1/2`: the column holds 4 (timesteps) and
     loses 1/2 per update, so the edge stated to last 2 years = 4 updates is still there after 4, 5, 6 and 7 updates and
@@ -346,8 +347,9 @@ theorem C14_timepar_duration_spec (dt : Rat) (a b : Nat) (D : Rat) (als : List (
     (h : ∀ al ∈ als, al a = true ∧ al b = true) :
     ageRowL (stepsCountdown .spec dt) als (a, b, timeparValue D dt) =
       if als.length = 0 ∨ (als.length : Int) < (D / dt).ceil then some (a, b, timeparValue D dt - als.length) else none := by
+  have e1 : ∀ x : Rat, x / 1 = x := by intro x; grind
   have := C14_timed_edges_own_dt 1 (by decide) a b (timeparValue D dt) als h
-  simpa [stepsCountdown, timeparValue] using this
+  simpa [stepsCountdown, timeparValue, e1] using this
 
 /-- the repaired countdown on the counterexample's input: gone after exactly 4 updates -/
 example : (List.range 6).map (fun k => (ageRowL (stepsCountdown .spec (1 / 2)) (List.replicate k (fun _ => true)) (0, 1, timeparValue 2 (1 / 2))).isSome) =
